@@ -1,6 +1,6 @@
 (* C13 — margin positions agree with pool totals and are liquidated only when unhealthy. *)
 From Coq Require Import ZArith List Bool.
-From Sif Require Import Base.Outcome Base.SdkMath Base.Store Base.Bank Model.Margin Proofs.MarginProofs.
+From Sif Require Import Base.Outcome Base.SdkMath Base.Store Base.Bank Model.Margin Proofs.MarginProofs Proofs.MarginLoop.
 Import ListNotations.
 Local Open Scope Z_scope.
 
@@ -81,6 +81,24 @@ Theorem C13_begin_block_pool_partial : forall s asset pool new_rate s' closed,
 Proof. exact begin_block_pool_preserves. Qed.
 Print Assumptions C13_begin_block_pool_partial.
 
+(* ---- BeginBlock: a whole pool, with no condition on the intermediate states of the loop. What the pass relies on is a
+   property of the state it starts from (BBReady): position stores in key order, non-negative custody amounts and pool
+   balances, the module account covers the pool's balance + custody on both sides, the block is an epoch boundary, fund
+   percentage within [0,1], fund addresses and position owners are not the module account, ids non-zero, every position
+   on exactly one pool. Proved through (A) a frame property of every keeper function - it leaves all other stored
+   positions, parameters and height alone -, (B) non-negativity of what sdk.Uint arithmetic writes, (C) the gap theorem
+   of C01 for the position step. *)
+Theorem C13_begin_block_pool : forall s asset pool new_rate s' closed,
+  SumInv s -> get asset (ms_pools s) = Some pool -> asset <> ROWAN -> BBReady s asset pool ->
+  begin_block_pool s asset pool new_rate = Ok (s', closed) ->
+  SumInv s' /\ (forall addr id h, In (addr, id, h) closed -> exists st0, h <= mp_safety (ms_params st0)).
+Proof. exact begin_block_pool_full. Qed.
+Print Assumptions C13_begin_block_pool.
+(* the frame: processing one position changes no other stored position, no parameter, not the height *)
+Theorem C13_position_step_frame : forall c c' o, process_mtp c = (c', o) -> FR c c'.
+Proof. exact frames_process_mtp. Qed.
+Print Assumptions C13_position_step_frame.
+
 (* interest payments keep the position and the pool linked: same custody moved on both *)
 Theorem C13_interest_keeps_link : forall i c c' o li,
   handle_interest_payment i c = (c', o) -> interest_hyps c -> Link true li c ->
@@ -104,4 +122,28 @@ Proof.
   - unfold on_pool. split; [vm_compute; discriminate|]. left; split; reflexivity.
   - reflexivity.
   - eexists _, _. split; [vm_compute; reflexivity|]. split; vm_compute; [discriminate|reflexivity].
+Qed.
+
+(* non-vacuity of the pass theorem: the state of C13_example is ready, and the pass liquidates its position *)
+Example C13_pass_example :
+  let m := mkMtp 0 1000 1000 0 0 0 1 1999 (2 * PREC) 0 in
+  let p := mkMPool 1000000 2000000 1000 0 0 1999 0 0 0 0 PREC 1 10 in
+  let ps := mkMParams (2 * PREC) (105 * PREC / 100) 1 false 0 21 0 20 [1] [] false 100 true 0 0 1 in
+  let s := mkMState (mkBank [(1, [(0, 5000000); (1, 5000000)])] []) [(1, p)] [(12, [(1, m)])] 1 1 7 ps [] 0 [] 0 in
+  BBReady s 1 p /\
+  exists s' h, begin_block_pool s 1 p (PREC, 1, 10) = Ok (s', [(12, 1, h)]) /\ all_mtps s' = [].
+Proof.
+  cbv zeta. split.
+  - unfold BBReady. split; [split; [exists 0; cbn; auto with zarith|constructor; [exists 0; cbn; auto with zarith|constructor]]|].
+    split.
+    { intros addr id m Hf. unfold find_mtp, mtps_of in Hf. cbn [ms_mtps get] in Hf.
+      destruct (12 <? addr); [discriminate Hf|]. destruct (12 =? addr); [|discriminate Hf]. cbn [get] in Hf.
+      destruct (1 <? id); [discriminate Hf|]. destruct (1 =? id); [|discriminate Hf]. injection Hf as <-. vm_compute. discriminate. }
+    split; [vm_compute; discriminate|]. split; [vm_compute; discriminate|]. split; [vm_compute; discriminate|]. split; [vm_compute; discriminate|].
+    split; [reflexivity|]. split; [vm_compute; split; discriminate|]. split; [vm_compute; split; discriminate|].
+    intros addr id m Hf. unfold find_mtp, mtps_of in Hf. cbn [ms_mtps get] in Hf.
+    destruct (Z.ltb_spec 12 addr); [discriminate Hf|]. destruct (Z.eqb_spec 12 addr) as [<-|]; [|discriminate Hf]. cbn [get] in Hf.
+    destruct (Z.ltb_spec 1 id); [discriminate Hf|]. destruct (Z.eqb_spec 1 id) as [<-|]; [|discriminate Hf]. injection Hf as <-.
+    split; [discriminate|]. split; [vm_compute; discriminate|]. unfold on_pool. split; [vm_compute; discriminate|]. left; split; reflexivity.
+  - eexists _, _. split; vm_compute; reflexivity.
 Qed.
